@@ -313,6 +313,7 @@ fn main() {
     let vchild = std::fs::canonicalize(&vchild).expect("vchild binary").to_string_lossy().into_owned();
     let mut outf = std::io::BufWriter::new(File::create(&args[2]).unwrap());
     let mut n = 0;
+    let mut hangs = 0;
     for line in BufReader::new(File::open(&args[1]).unwrap()).lines() {
         let line = line.unwrap();
         if line.trim().is_empty() {
@@ -320,7 +321,14 @@ fn main() {
         }
         let v: Value = serde_json::from_str(&line).unwrap();
         let mut lines = vec![];
+        if hangs >= 4 {
+            // enough hangs seen (20 s each): do not sit through the watchdog for every remaining scenario
+            continue;
+        }
         run_one(&v, &vchild, &mut lines);
+        if lines.iter().any(|l| l.contains("\"e\":\"hang\"")) {
+            hangs += 1;
+        }
         n += 1;
         for l in lines {
             outf.write_all(l.as_bytes()).unwrap();
